@@ -203,16 +203,31 @@ Section RpcProofs.
     intros [|b [|c s]]; cbn [encode_bytes]; try destruct (b <? 128); rewrite ?len_app; cbn; lia.
   Qed.
 
-  Theorem decode_encode_msg : enr_round_trip -> enr_only_lists ->
-    forall fixed m, wf_msg m -> decode_msg fixed (encode_msg m) = Ok m.
+  (* the fields of a well-formed message followed by arbitrary bytes [rest] inside the outer list:
+     accepted iff [rest] is empty.  (For NODES the bytes after the record list are looked at by the
+     record loop; that case is [decode_body_nodes_leftover] below.) *)
+  Definition wf_fields (m : msg) : Prop :=
+    bytes_ok (msg_id m) /\ len (msg_id m) <= REQUEST_ID_MAX_LEN /\
+    match m with
+    | Ping _ enr_seq => enr_seq < 2 ^ 64
+    | Pong _ enr_seq ip port => enr_seq < 2 ^ 64 /\ wf_ip ip /\ 1 <= port <= 65535
+    | FindNode _ distances => Forall (fun d => d <= FINDNODE_MAX_DISTANCE) distances
+    | Nodes _ total _ => total < 2 ^ 64
+    | TalkReq _ protocol request => bytes_ok protocol /\ bytes_ok request
+    | TalkResp _ response => bytes_ok response
+    end.
+
+  Lemma decode_body_encode_rest : enr_round_trip -> enr_only_lists ->
+    forall fixed m rest, wf_fields m -> len (encode_body m) < 2 ^ 64 ->
+    match m with Nodes _ _ _ => rest = [] | _ => True end ->
+    decode_body fixed (msg_type m) (encode_body m ++ rest) =
+    match rest with [] => Ok m | _ :: _ => Err E_not_empty end.
   Proof.
-    intros Hr Hl fixed m (Hidok & Hid & Hlen & Hm).
-    pose proof (body_len_ge_2 m) as H2. rewrite encode_msg_len in Hlen.
-    assert (Hb64 : len (encode_body m) < 2 ^ 64) by lia.
-    unfold Rpc.encode_msg. rewrite decode_msg_frame by assumption. clear H2 Hlen.
+    intros Hr Hl fixed m rest (Hidok & Hid & Hm) Hb64 Hrest.
     assert (Hid64 : len (msg_id m) < 2 ^ 64) by (unfold REQUEST_ID_MAX_LEN in Hid; rewrite two64; lia).
     rewrite encode_body_fields in *. rewrite two64 in *.
     destruct m as [id s|id s ip p|id ds|id t ns|id p r|id r]; cbn [msg_id msg_type msg_fields concat] in *;
+      rewrite ?app_nil_r in *; rewrite <- ?app_assoc;
       unfold Rpc.decode_body;
       rewrite decode_bytes_encode by (try rewrite two64; assumption); cbn [bind];
       rewrite request_id_ok by assumption; cbn [bind N.eqb Pos.eqb];
@@ -238,8 +253,9 @@ Section RpcProofs.
       + eapply Forall_impl; [|exact Hm]. cbn beta. unfold FINDNODE_MAX_DISTANCE. intros; rewrite two64; lia.
       + rewrite two64. lia.
     - (* NODES *)
+      subst rest. rewrite ?app_nil_r.
       rewrite decode_uint_encode by (try lia; rewrite pow256_8; assumption). cbn [bind].
-      unfold encode_list in *. rewrite len_app in Hb64. rewrite app_nil_r.
+      unfold encode_list in *. rewrite len_app in Hb64.
       rewrite decode_header_encode_list by (try rewrite two64; lia). cbn [bind hlist hlen negb].
       rewrite N.eqb_refl. cbn [negb]. rewrite andb_false_r.
       rewrite decode_records_encode by (assumption || lia). reflexivity.
@@ -254,6 +270,22 @@ Section RpcProofs.
       rewrite decode_bytes_encode by (try rewrite two64; try assumption; lia).
       reflexivity.
   Qed.
+
+  Lemma wf_msg_fields : forall m, wf_msg m -> wf_fields m /\ len (encode_body m) < 2 ^ 64.
+  Proof.
+    intros m (H1 & H2 & H3 & H4). rewrite encode_msg_len in H3. split; [|lia].
+    split; [assumption|]. split; [assumption|]. destruct m; assumption.
+  Qed.
+
+  Theorem decode_encode_msg : enr_round_trip -> enr_only_lists ->
+    forall fixed m, wf_msg m -> decode_msg fixed (encode_msg m) = Ok m.
+  Proof.
+    intros Hr Hl fixed m Hwf. destruct (wf_msg_fields m Hwf) as [Hf Hb64].
+    unfold Rpc.encode_msg. rewrite decode_msg_frame by (try assumption; apply body_len_ge_2).
+    rewrite <- (app_nil_r (encode_body m)).
+    rewrite (decode_body_encode_rest Hr Hl fixed m [] Hf Hb64); [reflexivity|destruct m; auto].
+  Qed.
+
   (* ---------------------------------------------------------------------------------------- *)
   (* totality: no panic (and the fuel of the model never runs out) *)
 
@@ -363,6 +395,179 @@ Section RpcProofs.
     apply bind_not_fuel; [apply decode_header_not_fuel|]. intros [h r] _.
     destruct (negb (hlist h)); [discriminate|]. destruct (negb _); [discriminate|].
     apply decode_body_not_fuel. assumption.
+  Qed.
+
+  (* ---------------------------------------------------------------------------------------- *)
+  (* canonicity: what the repaired decoder accepts is the encoding of a message; the message it
+     returns is that message, up to the IPv6 -> IPv4 collapse of PONG *)
+
+  Definition collapse_ip (ip : ipaddr) : ipaddr :=
+    match ip with
+    | IP4 o => IP4 o
+    | IP6 o => if is_loopback6 o then IP6 o
+               else match to_ipv4 o with Some v4 => IP4 v4 | None => IP6 o end
+    end.
+
+  Definition collapse (m : msg) : msg :=
+    match m with
+    | Pong id s ip p => Pong id s (collapse_ip ip) p
+    | _ => m
+    end.
+
+  (* what holds of every message whose encoding is accepted *)
+  Definition accepted (m : msg) : Prop :=
+    len (msg_id m) <= REQUEST_ID_MAX_LEN /\
+    match m with
+    | Ping _ s => s < 2 ^ 64
+    | Pong _ s ip p =>
+      s < 2 ^ 64 /\ 1 <= p <= 65535 /\
+      match ip with IP4 o => length o = 4%nat | IP6 o => length o = 16%nat end
+    | FindNode _ ds => Forall (fun d => d <= FINDNODE_MAX_DISTANCE) ds
+    | Nodes _ t ns => t < 2 ^ 64 /\ Forall (fun e => enr_decode (enr_encode e) = Some e) ns
+    | TalkReq _ _ _ => True
+    | TalkResp _ _ => True
+    end.
+
+  Lemma request_id_decode_ok : forall d id, request_id_decode d = Ok id -> id = d /\ len d <= REQUEST_ID_MAX_LEN.
+  Proof.
+    intros d id. unfold request_id_decode. destruct (N.ltb_spec REQUEST_ID_MAX_LEN (len d)); [discriminate|].
+    intro Hq; inversion Hq; subst; split; [reflexivity|assumption].
+  Qed.
+
+  Lemma ip_of_bytes_ok : forall b ip, ip_of_bytes b = Ok ip ->
+    exists ip', ip_octets ip' = b /\ collapse_ip ip' = ip /\
+                match ip' with IP4 o => length o = 4%nat | IP6 o => length o = 16%nat end.
+  Proof.
+    intros b ip. unfold ip_of_bytes.
+    destruct (Nat.eqb_spec (length b) 4).
+    - intro H; inversion H; subst. exists (IP4 b). auto.
+    - destruct (Nat.eqb_spec (length b) 16); [|discriminate].
+      intro H. exists (IP6 b). cbn [ip_octets collapse_ip]. repeat split; [|assumption].
+      destruct (is_loopback6 b); [inversion H; reflexivity|].
+      destruct (to_ipv4 b); inversion H; reflexivity.
+  Qed.
+
+  Lemma decode_records_canonical : enr_canonical -> forall fuel payload ns,
+    decode_records fuel payload = Ok ns ->
+    payload = concat (map enr_encode ns) /\ Forall (fun e => enr_decode (enr_encode e) = Some e) ns.
+  Proof.
+    intros Hc. induction fuel; intros [|b0 t0] ns H; try (cbn in H; inversion H; subst; split; [reflexivity|constructor]);
+      try (cbn in H; discriminate).
+    destruct (decode_records_step Hc fuel b0 t0 _ H) as [(e & E & _)|(e & sl & rest & Epl & _ & He & _ & E)];
+      [discriminate|].
+    symmetry in E. apply bind_ok in E. destruct E as (es & Hrec & E). inversion E; subst ns; clear E.
+    apply IHfuel in Hrec. destruct Hrec as [-> Hes].
+    pose proof (Hc _ _ He) as Hce. split.
+    - cbn [map concat]. rewrite Hce. exact Epl.
+    - constructor; [rewrite Hce; exact He|exact Hes].
+  Qed.
+
+  Lemma existsb_false_forall : forall ds, existsb (fun d => FINDNODE_MAX_DISTANCE <? d) ds = false ->
+    Forall (fun d => d <= FINDNODE_MAX_DISTANCE) ds.
+  Proof.
+    induction ds as [|d ds IH]; [constructor|]. cbn [existsb]. intro H. apply orb_false_iff in H.
+    destruct H as [H1 H2]. constructor; [|apply IH; exact H2].
+    destruct (N.ltb_spec FINDNODE_MAX_DISTANCE d); [discriminate|assumption].
+  Qed.
+
+  Lemma payload_empty : forall A (p : bytes) (x : A) r,
+    match p with _ :: _ => Err E_not_empty | [] => Ok x end = Ok r -> p = [] /\ r = x.
+  Proof. intros A [|? ?] x r H; [inversion H; auto|discriminate]. Qed.
+
+  Ltac fin := unfold accepted; cbn [msg_id]; repeat split; try assumption; try reflexivity; try lia.
+
+  Lemma decode_body_canonical : enr_canonical -> forall t body m, bytes_ok body ->
+    decode_body true t body = Ok m ->
+    exists m', body = encode_body m' /\ t = msg_type m' /\ accepted m' /\ collapse m' = m.
+  Proof.
+    intros Hc t body m Hok H. unfold Rpc.decode_body in H.
+    apply bind_ok in H. destruct H as ([idb p1] & Hid & H).
+    pose proof (decode_bytes_ok_parts _ _ _ _ Hok Hid) as [_ Hok1].
+    apply decode_bytes_canonical in Hid; [|assumption]. destruct Hid as [-> _].
+    apply bind_ok in H. destruct H as (id & Hrid & H).
+    apply request_id_decode_ok in Hrid. destruct Hrid as [-> Hidlen].
+    destruct (N.eqb_spec t 1) as [->|_].
+    { apply bind_ok in H. destruct H as ([s p2] & Hs & H).
+      apply decode_uint_canonical in Hs; [|assumption|lia]. destruct Hs as [-> Hs]. rewrite pow256_8, <- two64 in Hs.
+      apply payload_empty in H. destruct H as [-> ->].
+      exists (Ping idb s). cbn [encode_body msg_type accepted collapse msg_id]. rewrite app_nil_r. fin. }
+    destruct (N.eqb_spec t 2) as [->|_].
+    { apply bind_ok in H. destruct H as ([s p2] & Hs & H).
+      pose proof (decode_uint_rest_ok _ _ _ _ Hok1 Hs) as Hok2.
+      apply decode_uint_canonical in Hs; [|assumption|lia]. destruct Hs as [-> Hs]. rewrite pow256_8, <- two64 in Hs.
+      apply bind_ok in H. destruct H as ([ipb p3] & Hipb & H).
+      pose proof (decode_bytes_ok_parts _ _ _ _ Hok2 Hipb) as [_ Hok3].
+      apply decode_bytes_canonical in Hipb; [|assumption]. destruct Hipb as [-> _].
+      apply bind_ok in H. destruct H as (ip & Hip & H).
+      apply ip_of_bytes_ok in Hip. destruct Hip as (ip' & <- & <- & Hiplen).
+      apply bind_ok in H. destruct H as ([port p4] & Hp & H).
+      apply decode_uint_canonical in Hp; [|assumption|lia]. destruct Hp as [-> Hp]. rewrite pow256_2 in Hp.
+      destruct (N.eqb_spec port 0); [discriminate|].
+      apply payload_empty in H. destruct H as [-> ->].
+      exists (Pong idb s ip' port). cbn [encode_body msg_type accepted collapse msg_id]. rewrite app_nil_r.
+      fin. }
+    destruct (N.eqb_spec t 3) as [->|_].
+    { apply bind_ok in H. destruct H as ([ds p2] & Hds & H).
+      apply decode_u64_list_canonical in Hds; [|assumption]. destruct Hds as [-> _].
+      destruct (existsb _ ds) eqn:Hex; [discriminate|]. apply existsb_false_forall in Hex.
+      apply payload_empty in H. destruct H as [-> ->].
+      exists (FindNode idb ds). cbn [encode_body msg_type accepted collapse msg_id]. rewrite app_nil_r. fin. }
+    destruct (N.eqb_spec t 4) as [->|_].
+    { apply bind_ok in H. destruct H as ([total p2] & Hs & H).
+      pose proof (decode_uint_rest_ok _ _ _ _ Hok1 Hs) as Hok2.
+      apply decode_uint_canonical in Hs; [|assumption|lia]. destruct Hs as [-> Hs]. rewrite pow256_8, <- two64 in Hs.
+      apply bind_ok in H. destruct H as ([h p3] & Hh & H).
+      destruct (hlist h) eqn:Hlist; cbn [negb] in H; [|discriminate].
+      cbn [andb] in H. destruct (N.eqb_spec (hlen h) (len p3)) as [Hexact|]; cbn [negb] in H; [|discriminate].
+      apply bind_ok in H. destruct H as (ns & Hrec & H). inversion H; subst m; clear H.
+      apply decode_header_canonical in Hh; [|assumption].
+      destruct Hh as [(b & _ & _ & -> & _)|(-> & _ & _)]; [cbn in Hlist; discriminate|].
+      apply (decode_records_canonical Hc) in Hrec. destruct Hrec as [-> Hns].
+      exists (Nodes idb total ns). rewrite encode_body_fields.
+      cbn [msg_fields concat msg_type accepted collapse msg_id]. rewrite app_nil_r.
+      unfold encode_list. rewrite Hlist, Hexact. fin. }
+    destruct (N.eqb_spec t 5) as [->|_].
+    { apply bind_ok in H. destruct H as ([pr p2] & Hpr & H).
+      pose proof (decode_bytes_ok_parts _ _ _ _ Hok1 Hpr) as [_ Hok2].
+      apply decode_bytes_canonical in Hpr; [|assumption]. destruct Hpr as [-> _].
+      apply bind_ok in H. destruct H as ([rq p3] & Hrq & H).
+      apply decode_bytes_canonical in Hrq; [|assumption]. destruct Hrq as [-> _].
+      apply payload_empty in H. destruct H as [-> ->].
+      exists (TalkReq idb pr rq). cbn [encode_body msg_type accepted collapse msg_id]. rewrite app_nil_r. fin. }
+    destruct (N.eqb_spec t 6) as [->|_]; [|discriminate].
+    { apply bind_ok in H. destruct H as ([rs p2] & Hrs & H).
+      apply decode_bytes_canonical in Hrs; [|assumption]. destruct Hrs as [-> _].
+      apply payload_empty in H. destruct H as [-> ->].
+      exists (TalkResp idb rs). cbn [encode_body msg_type accepted collapse msg_id]. rewrite app_nil_r. fin. }
+  Qed.
+
+  Lemma decode_msg_ok_frame : forall f bs m, decode_msg f bs = Ok m ->
+    exists t payload h body, bs = t :: payload /\ decode_header payload = Ok (h, body) /\
+      hlist h = true /\ hlen h = len body /\ decode_body f t body = Ok m.
+  Proof.
+    intros f bs m H. unfold Rpc.decode_msg in H. destruct (len bs <? RPC_MIN_MESSAGE_LEN); [discriminate|].
+    destruct bs as [|t payload]; [discriminate|].
+    apply bind_ok in H. destruct H as ([h body] & Hh & H).
+    destruct (hlist h) eqn:Hl; cbn [negb] in H; [|discriminate].
+    destruct (N.eqb_spec (hlen h) (len body)); cbn [negb] in H; [|discriminate].
+    exists t, payload, h, body. auto.
+  Qed.
+
+  Theorem decode_msg_canonical : enr_canonical -> forall bs m, bytes_ok bs ->
+    decode_msg true bs = Ok m ->
+    exists m', bs = encode_msg m' /\ accepted m' /\ collapse m' = m.
+  Proof.
+    intros Hc bs m Hok H. apply decode_msg_ok_frame in H.
+    destruct H as (t & payload & h & body & -> & Hh & Hl & Hlen & Hb).
+    inversion Hok as [|? ? _ Hokp]; subst.
+    assert (Hokb : bytes_ok body).
+    { apply decode_header_ok in Hh. destruct Hh as [_ [(b & _ & _ & _ & ->)|(hd & -> & _)]]; [assumption|].
+      apply bytes_ok_app in Hokp. tauto. }
+    apply decode_header_canonical in Hh; [|assumption].
+    destruct Hh as [(b & _ & _ & -> & _)|(-> & _ & _)]; [cbn in Hl; discriminate|].
+    apply (decode_body_canonical Hc) in Hb; [|assumption].
+    destruct Hb as (m' & -> & -> & Hacc & Hcol).
+    exists m'. unfold Rpc.encode_msg. rewrite Hl, Hlen. auto.
   Qed.
 
 End RpcProofs.
